@@ -2,6 +2,14 @@ from . import rules_rep, rules_c04, inputs
 from .check_c06 import modes
 
 
+def self_controls(prog, facts):
+    from . import perturb
+
+    def rule(c, p2):
+        rules_rep.check_has_move(c, p2)
+    return perturb.run_controls([('has-move shortcut with another step cut',
+                                  lambda f: perturb.perturb_int(f, 'GameState::has_non_passing_like_action', 3, 2, ty='usize'), rule, 'C07.2a')], facts)
+
 def run(ctx, prog, facts, tier):
     I = inputs.make_interp(prog, fuel=40000000)
     rules_rep.check_c07(ctx, prog, I, modes(tier))
